@@ -213,6 +213,14 @@ package clientgen
 //@ func snakeToUpperCamel(s string) (r string)
 //@   pure
 
+// every RPC of the service gets its client method, in declaration order
+//@ func (g *Generator) generateServiceClient(gf *protogen.GeneratedFile, file *protogen.File, service *protogen.Service) (err error)
+//@   requires service != nil
+//@   modifies *
+//@   at-call generateRPCMethod requires each_rpc_in_order: arg2 == service && arg3 == service.Methods[count("generateRPCMethod") - old(count("generateRPCMethod"))]
+//@   loop 1 invariant count("generateRPCMethod") == old(count("generateRPCMethod")) + _i1
+//@   ensures every_rpc_has_a_method: err == nil ==> count("generateRPCMethod") == old(count("generateRPCMethod")) + len(service.Methods)
+
 // one RPC method is emitted from the configuration decided for that RPC (and for no other)
 //@ func (g *Generator) generateRPCMethod(gf *protogen.GeneratedFile, file *protogen.File, service *protogen.Service, method *protogen.Method) (err error)
 //@   requires service != nil && method != nil
